@@ -16,9 +16,10 @@ POSITIONS = ("top", "vec", "opt", "field", "mapval", "tuple", "mapkey")
 def _vals(d, rng, nrandom, cap=None):
     vs = CV.inputs_for(d, rng, nrandom)
     if cap and len(vs) > cap:
-        keep = vs[:0]
         step = len(vs) / float(cap)
         vs = [vs[int(i * step)] for i in range(cap)]
+        if d["fam"] == "string":
+            vs += [tuple(x) for x in VL.LONG_STRINGS if tuple(x) not in set(vs)]
     return [VL.enc_value(d, v) for v in vs]
 
 
@@ -38,6 +39,7 @@ def rows_canon(d, rng):
         rows.append({"d": d["id"], "ep": "canon_via_from_str", "ins": ins})
     if "Serialize" in d["traits"] and "Deserialize" in d["traits"]:
         rows.append({"d": d["id"], "ep": "canon_via_deser", "ins": sub})
+        rows.append({"d": d["id"], "ep": "canon_via_deser_mp", "ins": sub})
         rows.append({"d": d["id"], "ep": "canon_via_deser_seq", "ins": sub})
         rows.append({"d": d["id"], "ep": "canon_via_deser_ronv", "ins": sub})
     if "Display" in d["traits"] and "FromStr" in d["traits"]:
@@ -93,7 +95,11 @@ def int_texts(d):
             T.add(str(L + k))
     T.update([str(lo - 1), str(hi + 1), str(hi) + "0", "9" * 45, "-" + "9" * 45, "+5", "+0", "-0", "00005", "-005",
               " 5", "5 ", "\t5", "5\n", "\u00a05", "0x10", "1_0", "1e1", "5.0", "", "-", "+", "abc", "NaN", "inf",
-              "\u0665", "\uff15", "5\u0000", "--5", "+-5", "5-", "1,000"])
+              "\u0665", "\uff15", "5\u0000", "--5", "+-5", "5-", "1,000",
+              # around the limits of the narrower types, whatever the inner type (20-digit numbers that do not fit u64, ...)
+              "18446744073709551615", "18446744073709551616", "99999999999999999999", "100000000000000000000",
+              "9223372036854775807", "9223372036854775808", "-9223372036854775808", "-9223372036854775809",
+              "4294967295", "4294967296", "-2147483649", "340282366920938463463374607431768211455", "170141183460469231731687303715884105727"])
     return sorted(T)
 
 
@@ -348,7 +354,14 @@ def gate_c12(d):
     if not g["val"]:
         g["vmode"] = "none"
     g["minimal_driver"] = True
-    return g
+    # ... and with a custom `with`/`error` validation in place of the built-in rules: a user function proves nothing about NaN
+    c = copy.deepcopy(g)
+    c["id"] = d["id"] + "_gc"
+    c["vmode"] = "custom"
+    c["val"] = [{"k": "custom", "b": 0, "fn": "pos", "p": [0], "sp": "lit"}]
+    c["dflt"] = []
+    c["traits"] = [t for t in c["traits"] if t != "Default"]
+    return [g, c]
 
 
 def check_C12():
